@@ -14,7 +14,7 @@ CONSTANTS
   BugBuiltinsFirst = FALSE
   AnnChoices = {"noann", "int"}
   DefaultChoices = {"none", "name", "call", "lambda"}
-  RetChoices = {"None", "QA"}
+  RetChoices = {"None"}
   AsyncChoices = {FALSE}
   FutureChoices = {FALSE, TRUE}
   DunderChoices = {FALSE}
